@@ -25,6 +25,10 @@
 EXTENDS ISAlign, TLC
 
 CONSTANTS Fields     \* Fields[c] = sequence of [hasdef, def]: the init fields of class c (name = position)
+\* a class whose code is written with POSITIONAL arguments only and never omits a default (collections.defaultdict:
+\* defaultdict(factory, {items})) - the last class, if the model has three
+PosCls == 3
+IsPos(c) == c = PosCls /\ PosCls \in DOMAIN Fields
 
 I(n) == [t |-> "i", v |-> n]
 L(e) == [t |-> "l", e |-> e]
@@ -71,6 +75,7 @@ Canon(v) ==
     [] v.t = "l" -> LT([j \in DOMAIN v.e |-> Canon(v.e[j])])
     [] v.t = "t" -> TT([j \in DOMAIN v.e |-> Canon(v.e[j])])
     [] v.t = "d" -> DT(v.k, [j \in DOMAIN v.e |-> Canon(v.e[j])])
+    [] v.t = "c" /\ IsPos(v.c) -> CT(v.c, [j \in DOMAIN v.f |-> Canon(v.f[j])], <<>>, <<>>)
     [] v.t = "c" -> LET nd == SelectSeq([j \in DOMAIN v.f |-> j], LAMBDA j : ~IsDefault(v.c, j, v.f[j]))
                     IN CT(v.c, <<>>, nd, [q \in DOMAIN nd |-> Canon(v.f[nd[q]])])
 \* a call term is well formed: no field given twice, every field without default given
@@ -88,6 +93,8 @@ VEq(a, b) ==
          [] a.t \in {"l", "t"} -> Len(a.e) = Len(b.e) /\ \A j \in DOMAIN a.e : VEq(a.e[j], b.e[j])
          [] a.t = "d" -> /\ Len(a.k) = Len(b.k)
                          /\ \A j \in DOMAIN a.k : Has(b.k, a.k[j]) /\ VEq(a.e[j], b.e[Idx(b.k, a.k[j])])
+         \* (a defaultdict compares like a dict: only its items, not the default_factory)
+         [] a.t = "c" /\ IsPos(a.c) -> a.c = b.c /\ VEq(a.f[2], b.f[2])
          [] a.t = "c" -> a.c = b.c /\ \A j \in DOMAIN a.f : VEq(a.f[j], b.f[j])
 EqTV(tm, v) == VEq(Eval(tm), v)   \* old element (a term) == new element (a value), as the alignment compares them
 
@@ -133,6 +140,16 @@ Assign(tm, v, A) ==
                ents == CatAll([p \in 1..(nold + 1) |-> piece[p - 1]])
                cats == (IF anyDel \/ anyIns THEN {"fix"} ELSE {}) \cup UNION {sub(i).cats : i \in {i \in 1..nold : survives(i)}}
            IN [term |-> DT([q \in DOMAIN ents |-> ents[q][1]], [q \in DOMAIN ents |-> ents[q][2]]), cats |-> cats]
+    [] tm.t = "ct" /\ IsPos(tm.c) /\ v.t = "c" /\ v.c = tm.c ->
+         \* positional arguments are assigned one by one; missing ones are inserted, surplus ones deleted (fix)
+         LET np == Len(tm.p)
+             nf == Len(v.f)
+             sub(j) == Assign(tm.p[j], v.f[j], A)
+             kept == [j \in 1..(IF np < nf THEN np ELSE nf) |-> sub(j).term]
+             more == IF np < nf THEN (IF "fix" \in A THEN [j \in 1..(nf - np) |-> Canon(v.f[np + j])] ELSE <<>>)
+                     ELSE (IF "fix" \in A THEN <<>> ELSE SubSeq(tm.p, nf + 1, np))
+         IN [term |-> CT(tm.c, kept \o more, <<>>, <<>>),
+             cats |-> (IF np # nf THEN {"fix"} ELSE {}) \cup UNION {sub(j).cats : j \in DOMAIN kept}]
     [] tm.t = "ct" ->
          IF v.t # "c" \/ v.c # tm.c THEN Leaf(tm, v, A)
          ELSE
